@@ -486,10 +486,13 @@ Definition exec_call (s : sys) (th : thread) (e : env) (c : call) : cout :=
       | FLWith l ps :: fr =>
           match find_local l (th_scoped th) with
           | Some (Some h) =>
-              match s_with_props dbg st h ps with
-              | Panic site => CPanic site
-              | Ok st' => COk s (th_set_frames (th_set_stack th st') fr) e [] RUnit
-              end
+              (* LocalSpan::with_properties checks is_recording again after the closure ran *)
+              if s_is_recording st h then
+                match s_with_props dbg st h ps with
+                | Panic site => CPanic site
+                | Ok st' => COk s (th_set_frames (th_set_stack th st') fr) e [] RUnit
+                end
+              else COk s (th_set_frames th fr) e [] RUnit
           | _ => CBad 6
           end
       | FLAdd ps :: fr =>
